@@ -41,6 +41,10 @@ M = [
  ('tree_storage_capacity_plus_one', ['C19'], 'ixai/storage/tree_storage.py', "size=self._leaf_reservoir_length, store_targets=False, constant_probability=1.0)", "size=self._leaf_reservoir_length + 1, store_targets=False, constant_probability=1.0)"),
  ('default_imputer_mutates_instance', ['C06'], 'ixai/imputer/default_imputer.py', "        prediction = self.model_function({**x_i, **sampled_values})\n", "        x_i.update(sampled_values)\n        prediction = self.model_function(x_i)\n"),
  ('interval_window_off_by_one', ['C05', 'C07'], 'ixai/storage/interval_storage.py', "        if len(self._storage_x) < self.size:\n", "        if len(self._storage_x) <= self.size and self.size > 1 or len(self._storage_x) < self.size:\n"),
+ # --- the library re-seeds the global generator ("for reproducibility"): results stay reproducible, the draws are no longer random
+ ('uniform_reseeds_in_update', ['C08'], 'ixai/storage/uniform_reservoir_storage.py', "        self.stored_samples += 1\n        if self.stored_samples <= self.size:", "        self.stored_samples += 1\n        random.seed(self.stored_samples)\n        if self.stored_samples <= self.size:"),
+ ('geometric_reseeds_in_update', ['C09'], 'ixai/storage/geometric_reservoir_storage.py', "            random_float = random.random()\n", "            random.seed(len(x))\n            random_float = random.random()\n"),
+ ('marginal_imputer_reseeds', ['C04'], 'ixai/imputer/marginal_imputer.py', "    def _sample_marginals(features, feature_subset):\n        rand_idx", "    def _sample_marginals(features, feature_subset):\n        random.seed(len(features))\n        rand_idx"),
  ('welford_var_sample_variance', ['C10', 'C20'], 'ixai/utils/tracker/welford.py', "return self.sum_squares / max(self.N, 1)", "return self.sum_squares / max(self.N - 1, 1)"),
 ]
 wt = '/tmp/wt/mkmut'
